@@ -39,6 +39,20 @@ func stepsOf(c Case) int64 {
 	return 100000 - g
 }
 
+// psimSteps reports the gas a code blob consumes under Psi_M with a budget of 100000.
+func psimSteps(code []byte) int64 {
+	out := h.Guard(func() string { return Run("psim " + h.Hex(code) + " 100000") })
+	f := strings.Fields(out)
+	if len(f) < 1 {
+		return 0
+	}
+	g, err := strconv.ParseInt(f[0], 10, 64)
+	if err != nil {
+		return 0
+	}
+	return g
+}
+
 // GenC01: exhaustive single-instruction sweep + random programs + memory / sbrk programs.
 func GenC01(r *h.Rng, tier string, emit func(string)) {
 	st := h.Stats{}
@@ -90,6 +104,7 @@ func GenC04(r *h.Rng, tier string, emit func(string)) {
 			c = genStructuredProgram(r, i%12 == 3)
 		}
 		steps := stepsOf(c)
+		terminates := steps < 5000
 		if steps > 40 {
 			steps = 40
 		}
@@ -99,7 +114,7 @@ func GenC04(r *h.Rng, tier string, emit func(string)) {
 			st.Inc("gas-sweep")
 		}
 		for _, g := range []int64{-1, -9223372036854775808, 9223372036854775807, 1 << 62} {
-			if r.Intn(8) == 0 {
+			if (terminates || g < 0) && r.Intn(8) == 0 {
 				c.Gas = g
 				emit(c.String())
 				st.Inc("gas-extreme")
@@ -113,6 +128,9 @@ func GenC04(r *h.Rng, tier string, emit func(string)) {
 			c = genStructuredProgram(r, i%10 == 1)
 		}
 		code := c.Blob
+		if psimSteps(code) >= 5000 { // a looping program would never finish under a huge limit
+			continue
+		}
 		lims := []uint64{0, 1, 2, 3, 5, 10, 11, 12, 20, 21, 50, 1000, 1 << 32, 1<<63 - 1, 1 << 63, 1<<63 + 1, ^uint64(0), ^uint64(0) - 1}
 		for k := 0; k < 4; k++ {
 			lims = append(lims, uint64(r.Intn(40)), r.U64(), r.U64()|1<<63)
